@@ -48,7 +48,13 @@ def check_stage(rec, stage, root, smap, tmap, what, w):
             break
     rec.count("stages_checked")
     rec.check(bad is None, "C03/ids/renumbered-%s" % (what.split(":")[0]), lambda: "%s: %s of row %d %r has id %r, the lineage root assigns %r" % (what, bad[0], bad[1], bad[2], bad[3], bad[4]), w)
-    return bad is None
+    # the mappings carried by the stage (what a model's embeddings are sized and indexed by) still know every
+    # sample and condition of the lineage under the same id - also those absent from this stage's rows
+    s2, t2 = root_maps(stage)
+    lost_s = sorted(k for k, v in smap.items() if s2.get(k) != v)
+    lost_t = sorted(k for k, v in tmap.items() if t2.get(k) != v)
+    rec.check(not lost_s and not lost_t, "C03/mapping/root-entry-lost-%s" % (what.split(":")[0]), lambda: "%s: the stage's mappings no longer assign the lineage's id to samples %r / conditions %r" % (what, lost_s[:4], lost_t[:4]), w)
+    return bad is None and not lost_s and not lost_t
 
 
 def run_shard(rec, tier, seed, shard, nshards):
